@@ -74,7 +74,7 @@ def exprs_for(pid, tier):
         for y in ys:
             for c in ('PrecededBy', 'NotPrecededBy', 'EnclosedBy', 'NotEnclosedBy'):
                 ex.append(f"{c}('x', {y})")
-                ex.append(f"{c}(Backreference('w'), {y})")
+                ex.append(f"{c}(Backreference('n'), {y})")
             ex.append(f"Pregex('x').preceded_by({y})")
             ex.append(f"Pregex('x').not_enclosed_by({y})")
         return ex
